@@ -2,6 +2,7 @@ import DSV.Model.Filter
 import DSV.Model.Codec
 import DSV.Model.FilterParse
 import DSV.Model.Backend
+import DSV.Model.Hint
 /-!
 Line-protocol driver: one request per line on stdin, one reply per line on stdout.
 First token selects the model function.  Imports only `DSV.Model.*` (core Lean), so it links natively.
@@ -210,6 +211,76 @@ def handleBackend (cmd : String) (args : List String) : String :=
       else "bad-op"
   | _, _ => "bad-op"
 
+/-! #### version hint -/
+open DSV.Hint in
+def parseCp (t : String) : Option Cp :=
+  if t = "x" then some .dx else if t = "w" then some .ws else if t = "o" then some .ot
+  else if t.startsWith "d" then (t.drop 1).toString.toNat?.map .ad
+  else if t.startsWith "u" then (t.drop 1).toString.toNat?.map .ud
+  else if t.startsWith "c" then (t.drop 1).toString.toNat?.map fun n => .ch (Char.ofNat n)
+  else none
+
+open DSV.Hint in
+def parseCps (s : String) : Option (Option (List Cp)) :=
+  if s = "!" then some none
+  else if s = "-" then some (some [])
+  else ((s.splitOn ".").mapM parseCp).map some
+
+open DSV.Hint in
+def showCp : Cp → String
+  | .ad d => s!"d{d}" | .ud d => s!"u{d}" | .dx => "x" | .ws => "w" | .ch c => s!"c{c.toNat}" | .ot => "o"
+
+open DSV.Hint in
+def parseEntry (t : String) : Option Entry :=
+  match t.splitOn ":" with
+  | [n, v, m] => do
+      let name ← n.toNat?
+      let ver ← if v = "-" then some none else v.toNat?.map some
+      let mt ← if m = "-" then some none else m.toNat?.map some
+      pure ⟨name, ver, mt⟩
+  | _ => none
+
+open DSV.Hint in
+def parseListing (args : List String) : Option (Option (List Entry)) :=
+  match args with
+  | ["fail"] => some none
+  | ["empty"] => some (some [])
+  | es => (es.mapM parseEntry).map some
+
+open DSV.Hint in
+def handleHint (cmd : String) (args : List String) : String :=
+  match cmd, args with
+  | "hint.parse", [g, t] =>
+      match parseCps t with
+      | some c =>
+          match parseHintWith (g = "1") c with
+          | .ok (v, name) => s!"ok {v} " ++ ".".intercalate (name.map showCp)
+          | .none => "none"
+          | .raise => "raise"
+      | none => "bad-op"
+  | "hint.recover", l =>
+      match parseListing l with
+      | some lst => match recover lst with
+          | some (v, n) => s!"some {v} {n}"
+          | none => "none"
+      | none => "bad-op"
+  | "hint.cvi", h :: ex :: l =>
+      let hint : Option (Res (Nat × Nat)) :=
+        if h = "none" then some .none else if h = "raise" then some .raise
+        else match h.splitOn ":" with
+          | ["ok", v, n] => match v.toNat?, n.toNat? with
+              | some a, some b => some (.ok (a, b))
+              | _, _ => none
+          | _ => none
+      match hint, parseListing l with
+      | some hh, some lst =>
+          match currentVersionInfo hh (ex = "1") lst with
+          | .ok (v, n) => s!"ok {v} {n}"
+          | .none => "none"
+          | .raise => "raise"
+      | _, _ => "bad-op"
+  | _, _ => "bad-op"
+
 def handle (line : String) : String :=
   match splitWs line with
   | [] => "bad-op"
@@ -217,6 +288,7 @@ def handle (line : String) : String :=
     if cmd = "flt.compile" then handleCompile args
     else if cmd.startsWith "flt." then handleFilter cmd args
     else if cmd.startsWith "codec." then handleCodec cmd args
+    else if cmd.startsWith "hint." then handleHint cmd args
     else if cmd.startsWith "rng." || cmd.startsWith "retry." || cmd.startsWith "ls." then handleBackend cmd args
     else "bad-op"
 
